@@ -1,5 +1,5 @@
 (* Run/C09.v — case decoder / observable encoder for the C09 correspondence.
-   case  = ( trie (query..) )     trie = ((x<key> x<value>)..): the trie the queries are about; used by
+   case  = ( trie (query..) [1] ) trie = ((x<key> x<value>)..): the trie the queries are about; used by
                                   the Go oracle only (the model is given the root hash in each query)
    query = ( x<rootHash> x<firstKey> (x<key>..) (x<value>..) proof )
    proof = (0)                    proof == nil
@@ -45,5 +45,6 @@ Definition run_query (q : sx) : sx :=
 Definition C09_run (c : sx) : sx :=
   match c with
   | SL [SL _; SL qs] => SL (map run_query qs)
+  | SL [SL _; SL qs; _] => SL (map run_query qs)      (* crafted (non-genuine) proof nodes: no oracle on the Go side *)
   | _ => SErr 0
   end.
